@@ -171,6 +171,25 @@ func (x *Exec) evalIdent(name string, env *Env) Val {
 			return v
 		}
 	}
+	if !env.closed && x.fn != nil && !x.resolving[name] {
+		// the variable is gone: a range variable of a loop that was rewritten, or
+		// a temporary that was inlined (hints.go)
+		fnName := shortName(x.fn)
+		if x.inlined && x.parent != nil {
+			fnName = ""
+		}
+		if sub := vanishedName(fnName, x.fn, name); sub != "" {
+			if ex, err := parseSpec(sub); err == nil {
+				if x.resolving == nil {
+					x.resolving = map[string]bool{}
+				}
+				x.resolving[name] = true
+				defer delete(x.resolving, name)
+				x.enc.note("%s: contract name %q no longer exists; read as %s", x.name, name, sub)
+				return x.eval(ex, env)
+			}
+		}
+	}
 	x.fail("unbound name %q in contract", name)
 	return Val{}
 }
